@@ -15,7 +15,9 @@
 (*     VcgSound   : as VcSound with the conditions A1..An                                                   *)
 (* Divergences (informational): the code's conditions differ (up to NormB) from the reference generator's,  *)
 (* the printed program re-parses to a program with another behaviour, a second compute_wp on the same       *)
-(* object changes the list of conditions.                                                                   *)
+(* object changes the list of conditions, an object with an annotation history (mode "hist": annotated for  *)
+(* another precondition / postcondition / invariant before) shows other conditions than a fresh object.     *)
+(* History events are judged by the same VcSound clause: program, last (pre, post), the conditions shown.   *)
 EXTENDS C20_HoareSem, TraceLib
 
 IBoxS == BoxOf(IntLo, IntHi)
@@ -48,9 +50,14 @@ ComVerdict(e) ==
       dref == ok /\ e.mode = "fresh" /\ Norms({ e.vcs[i].t : i \in 1..n }) # Norms(RefVCs(e.pre, e.prog, e.post))
       drt == ok /\ (e.rtok # "ok" \/ (e.rt # e.prog /\ (~(WfC(e.rt) /\ SafeC(e.rt, VCap)) \/ \E s \in IBoxS : ~SameRun(Run(e.rt, s), Run(e.prog, s)))))
       dtw == ok /\ e.mode = "twice" /\ ~SameSeq(e.first, ComTrees(e))
+      \* history: up to tautologies  A --> A  the object shows what a fresh object shows for the same triple
+      dhi == ok /\ e.mode = "hist" /\
+             (IF \A i \in 1..Len(e.first) : WfB(e.first[i])
+              THEN Norms({ t \in { e.vcs[i].t : i \in 1..n } : ~Taut(t) }) # Norms({ t \in { e.first[i] : i \in 1..Len(e.first) } : ~Taut(t) })
+              ELSE TRUE)
   IN [fails |-> (IF j.cex THEN {"VcSound"} ELSE {}) \cup (IF pp THEN {"PrintParse"} ELSE {})
                 \cup (IF pf THEN {"ParseFail"} ELSE {}) \cup (IF hm THEN {"HolMeaning"} ELSE {}),
-      nt |-> j.nt, dv |-> dref \/ drt \/ dtw]
+      nt |-> j.nt, dv |-> dref \/ drt \/ dtw \/ dhi]
 
 \* ------------------------------------------------------------------------------------------- kind "sem"
 RECURSIVE WfState(_), StateVal(_, _)
